@@ -24,7 +24,7 @@
    executor logs an Advance event in front of the first event of every new instant, i.e. `now` is the exact virtual
    time of every event.  The attester duty's goroutine is in stage "wait": its Trigger event is accepted whenever it
    comes and NotEarly judges the instant (field `at` of the event must be `now`: self-check of the driver); a clock
-   move past its deadline without the Trigger is Complete (TLost).  Head / FetchOnly events are consumed without
+   move after its deadline has passed without the Trigger is Complete (TLost).  Head / FetchOnly events are consumed without
    any demand: whether and when the early fetch happens is not C15's business; what C15 demands is that they
    change nothing about the duty triggers (with the flags on or off). *)
 EXTENDS Scheduler, TraceCommon
@@ -80,9 +80,8 @@ TStrayDelay == /\ IsEvent("Delay") /\ pc # "loop" /\ UNCHANGED stray
 \* the clock moves (or the run ends) although a spawned goroutine never showed up in the trace: the duty was not
 \* triggered / the slot subscriber was not called
 TLost == /\ l <= TLen /\ Ev.ev \in {"Advance", "End"} /\ pc = "idle"
-         /\ LET lost == IF Ev.ev = "Advance" THEN {g \in gor : g.stage = "wait" => Ev.to > g.dl} ELSE ReadyGor IN
-            /\ lost # {}
-            /\ IF \E g \in lost : g.kind = "duty" THEN InvFail("Complete") ELSE InvFail("SlotSubCalled")
+         /\ ReadyGor # {}       \* (a goroutine still asleep until its deadline is not lost)
+         /\ IF \E g \in ReadyGor : g.kind = "duty" THEN InvFail("Complete") ELSE InvFail("SlotSubCalled")
          /\ UNCHANGED tvars
 TStray == /\ IsEvent("Trigger") /\ pc # "loop" /\ ~\E g \in gor : g.kind = "duty" /\ g.slot = Ev.slot /\ g.type = Ev.type
           /\ LET w == FeatOn /\ Ev.type = "att" IN
